@@ -403,7 +403,7 @@ def _bl_specs(S, sym, model=None, lo=0):
     return [dict(time=100, length=length, channel=0, record_i=0, pulse_length=length, baseline=0.0, dt=2, data=data)], length
 
 
-def sym_baseline(B, S=4, lo=0):
+def sym_baseline(B, S=4, lo=0, flip=True):
     """strax.baseline on one short pulse (length <= record size): the stored baseline is the mean of the first
     min(baseline_samples, length) REAL samples, and with the stored fractional part integrate() gives the exact
     baseline-subtracted area  sum(baseline - raw)."""
@@ -411,16 +411,18 @@ def sym_baseline(B, S=4, lo=0):
 
     specs, length = _bl_specs(S, True, lo=lo)
     recs = mk_records(specs, S, True)
-    strax.baseline(_RecView(recs), baseline_samples=B)  # rows whose sub-arrays are symbolic arrays (mean / std)
+    strax.baseline(_RecView(recs), baseline_samples=B, flip=flip)  # rows whose sub-arrays are symbolic arrays (mean / std)
     n = min(B, length)
     true_bl = core.ssum(specs[0]["data"][:n], 0) / n
     prove(recs["baseline"][0] == true_bl, f"baseline:stored baseline is not the mean of the first {n} samples of the pulse "
                                           f"(length {length}, baseline_samples {B})")
     strax.integrate(recs)
-    true_area = core.ssum([true_bl - specs[0]["data"][q] for q in range(length)], 0)
+    sign = 1 if flip else -1
+    true_area = core.ssum([sign * (true_bl - specs[0]["data"][q]) for q in range(length)], 0)
     # the area field is an integer: integrate rounds the fractional contribution (documented), so within 1/2
     prove(sand(2 * (recs["area"][0] - true_area) <= 1, 2 * (recs["area"][0] - true_area) >= -1),
-          "baseline:integrate(area) is not the (rounded) sum of (baseline - raw sample) over the pulse")
+          "baseline:integrate(area) is not the (rounded) sum of (baseline - raw sample) over the pulse" if flip else
+          "baseline:flip=False: integrate(area) is not the (rounded) sum of (raw sample - baseline) over the pulse")
     return length
 
 
@@ -430,14 +432,16 @@ def nat_baseline(params, model):
     B, S = params["B"], params.get("S", 4)
     specs, length = _bl_specs(S, False, model)
     recs = mk_records(specs, S, False)
-    strax.baseline(recs, baseline_samples=B)
+    flip = params.get("flip", True)
+    strax.baseline(recs, baseline_samples=B, flip=flip)
     n = min(B, length)
     raw = specs[0]["data"]
     true_bl = sum(raw[:n]) / n
     strax.integrate(recs)
-    true_area = sum(true_bl - raw[q] for q in range(length))
+    true_area = sum((1 if flip else -1) * (true_bl - raw[q]) for q in range(length))
     ok = abs(float(recs["baseline"][0]) - true_bl) < 1e-3 and abs(float(recs["area"][0]) - true_area) <= 0.5 + 1e-3
-    return {"ok": bool(ok), "label": "baseline:stored baseline / area differ from the definition",
+    return {"ok": bool(ok), "label": "baseline:stored baseline / area differ from the definition" if flip else
+            "baseline:flip=False: area differs from the definition",
             "detail": f"raw {raw} length {length} baseline_samples {B}: stored baseline {float(recs['baseline'][0])} (mean of the "
                       f"pulse's first {n} samples: {true_bl}), area {float(recs['area'][0])} (true {true_area})"}
 
@@ -482,7 +486,7 @@ OBLIGATIONS = [
        nat_reduce, setup=_setup, witnesses=3, max_paths=400000,
        doc="cut_outside_hits keeps exactly the samples within the extensions of hits (into adjacent fragments), zeroes "
            "the rest, leaves metadata untouched"),
-    Ob("baseline", sym_baseline, lambda tier: [dict(B=2), dict(B=3), dict(B=6), dict(B=3, lo=-40)], nat_baseline, setup=_setup,
+    Ob("baseline", sym_baseline, lambda tier: [dict(B=2), dict(B=3), dict(B=6), dict(B=3, lo=-40), dict(B=2, flip=False)], nat_baseline, setup=_setup,
        witnesses=2, doc="baseline == mean of the first min(baseline_samples, length) samples; area consistent with it"),
     Ob("cutbase", sym_cutbase, lambda tier: [dict(nfrag=1), dict(nfrag=2)], nat_cutbase, setup=_setup, witnesses=2,
        doc="cut_baseline zeroes exactly the first n_before / last n_after samples of the pulse"),
